@@ -94,6 +94,9 @@ def ga_split(h):
     train = env["train_rows"]
     h.ensures("train_rows_ge_1", train >= 1)
     h.ensures("calibration_rows_ge_1", n - train >= 1)
+    # the gaussian model bootstraps the scale of the calibration scores (scipy.stats.bootstrap: >= 2 observations, ValueError
+    # otherwise); exported to C15 (fit_cascade_step.*, group_statistics.*: every fitted group then holds >= 3 of them)
+    h.ensures("calibration_rows_ge_3", n - train >= 3)
 
 
 @unit("C14", "bootstrap.minimum", fn=f"{BO}.get_minimum_reporting_units")
